@@ -8,6 +8,7 @@ from fractions import Fraction
 from ..interp import cval, has_const
 from ..source import norm_text
 from .C08 import linear
+from .common import def_map, expand
 from .formula import check_degree
 from .geo import all_geos, geo_text, kind_errors, uniq_events
 
@@ -28,7 +29,7 @@ def check(ctx):
                   'normalisation is dimensionless (density * volume)')
     ctx.floor('R1', 1)
     ctx.floor('R2', 3)
-    ctx.floor('R3', 3)
+    ctx.floor('R3', 5)
     ctx.floor('R4', 3)
     check_lookup(ctx)
     check_codec(ctx)
@@ -205,6 +206,23 @@ def check_lengths(ctx):
             tg = n.targets[0] if isinstance(n, ast.Assign) else n.target
             if isinstance(tg, ast.Name) and n.value is not None:
                 env.setdefault(tg.id, n.value)
+    for f_ in (fi, ctx.fn(RDS)):
+        defs = def_map(f_.node)
+        b = defs.get('bins')
+        if b is None:
+            ctx.ob('R3', f_, 'bins', None, 'bin edges are not a single assignment')
+            continue
+        be = expand(b, defs)
+        t = norm_text(be).replace(' ', '')
+        if t == 'np.arange(0,max_dist+resolution,resolution)':
+            ctx.ob('R3', f_, b, True, 'edges 0, r, 2r, ... up to at least the cut-off')
+        elif isinstance(be, ast.BinOp) and isinstance(be.op, ast.Mult) and 'np.arange(' in t and ('int(max_dist/resolution)' in t or 'max_dist//resolution' in t
+                                                                                                  or 'floor(max_dist/resolution)' in t):
+            ctx.ob('R3', f_, b, False, 'the number of edges is obtained by truncating max_dist / resolution: when the cut-off is not an exact '
+                                        '(floating point) multiple of the resolution the last edge lies below the cut-off and pairs within '
+                                        'the cut-off fall into the discarded overflow bin')
+        else:
+            ctx.ob('R3', f_, b, None, 'construction of the bin edges not recognised')
     length = env.get('length')
     lin = linear(length) if length is not None else None
     ok = lin is not None and lin[0] == {'len(bins)': 1} and lin[1] == 1
